@@ -57,16 +57,20 @@ fn main() {
             let n: usize = a[4].parse().expect("n");
             let mut sink = Sink::create(&a[5]);
             let extra = a.get(6).map(|s| s.as_str()).unwrap_or("");
+            let mut nontrivial = None;
             match a[2].as_str() {
                 "select" => drive_select(seed, n, &mut sink),
                 "evaluator" => drive_evaluator(seed, n, extra != "nonan", &mut sink),
                 "evalv" => drive_evalv(seed, n, extra != "nonan", &mut sink),
                 "merge" => drive_merge(seed, n, &mut sink),
                 "arb" => drive_arb(seed, n, &mut sink),
-                k => vh::dispatch::drive(k, seed, n, extra, &mut sink),
+                k => nontrivial = Some(vh::dispatch::drive(k, seed, n, extra, &mut sink)),
             }
             let n = sink.finish();
-            println!("{}", json!({"events": n}));
+            match nontrivial {
+                Some(k) => println!("{}", json!({"events": n, "nontrivial": k})),
+                None => println!("{}", json!({"events": n})),
+            }
         }
         "explore" => {
             // fixpoint exploration of implementation evaluator states for TLC-enumerated or random ends
